@@ -81,11 +81,21 @@ def rule_isolation(ctx):
     om = get_onmessage(ctx)
     g, mf, res = om.g, om.mf, om.res
     nodes = om.arm_nodes("Event")
-    calls = [(n, c) for n in nodes for c in node_calls(n) if call_name(c) == "txaio.as_future" and c.args and norm.text(c.args[0]) == "handler.fn"]
-    ctx.ob("handler invoked through txaio.as_future(handler.fn, *invoke_args, **invoke_kwargs)", len(calls) == 1 and [norm.text(a) for a in calls[0][1].args[1:]] == ["*invoke_args"] and
-           [norm.text(k.value) for k in calls[0][1].keywords if k.arg is None] == ["invoke_kwargs"], "handler call changed", om.fn.loc())
+    # the handler is the fan-out loop's variable, whatever it is called; what it receives is decided cell-wise in C11.3
+    L0, _ = _fanout(om)
+    LV = L0.target.id if isinstance(L0.target, ast.Name) else None
+    hdefs = {s_.targets[0].id for s_ in ast.walk(L0) if isinstance(s_, ast.Assign) and len(s_.targets) == 1 and isinstance(s_.targets[0], ast.Name)
+             and norm.text(s_.value) == f"{LV}.handler"} | {LV}
+    calls = [(n, c) for n in nodes for c in node_calls(n) if call_name(c) == "txaio.as_future" and c.args and isinstance(c.args[0], ast.Attribute) and c.args[0].attr == "fn"
+             and isinstance(c.args[0].value, ast.Name) and c.args[0].value.id in hdefs and any(c is x for x in ast.walk(L0))]
+    ctx.ob("handler invoked through txaio.as_future(handler.fn, *invoke_args, **invoke_kwargs)", len(calls) == 1 and len(calls[0][1].args) == 2 and
+           isinstance(calls[0][1].args[1], ast.Starred) and isinstance(calls[0][1].args[1].value, ast.Name) and
+           len([k for k in calls[0][1].keywords if k.arg is None and isinstance(k.value, ast.Name)]) == 1 and len(calls[0][1].keywords) == 1, "handler call changed", om.fn.loc())
     cbs = [(n, c) for n in nodes for c in node_calls(n) if call_name(c) == "txaio.add_callbacks"]
-    ok = len(cbs) == 1 and [norm.text(a) for a in cbs[0][1].args] == ["future", "_success", "_error"]
+    # the future is whatever the handler invocation's result is assigned to
+    futn = [n.ast.targets[0].id for n, c in calls if n.kind == "stmt" and isinstance(n.ast, ast.Assign) and len(n.ast.targets) == 1 and isinstance(n.ast.targets[0], ast.Name)
+            and n.ast.value is c]
+    ok = len(cbs) == 1 and [norm.text(a) for a in cbs[0][1].args] == [futn[0] if futn else "future", "_success", "_error"]
     ctx.ob("each handler's future gets its own errback", ok, "errback wiring changed", om.fn.loc())
     errs = [c for c in om.closures() if c.name == "_error" and om.closure_arm(c)[0] == "Event"]
     ctx.require(len(errs) == 1, "EVENT arm: _error closure not found")
